@@ -173,7 +173,39 @@ def _updates(ctx):
         want = it.call(it.getattr(it.getitem(it.getattr(base, "at"), idx), op), [val], {})
         if not (isinstance(out, NdArr) and all(to_rat(x).equals(to_rat(y)) for x, y in zip(out.data, want.data))):
             bad.append((n_dev, op, "differs from arr.at[index]." + op))
-    ctx.ob("R42.2", f"{SH}._sharding_preserving_indexed_update", not bad, "on one device and on several the result is arr.at[index].set / add(values): the multi-device branch only wraps the same update in a jit with the input's sharding as output sharding", bad, "same update in both branches")
+    # history independence: the two operations in sequence on arrays of one layout, in one process (one interpreter:
+    # module-level state persists between the calls) — each call must still perform its own operation
+    for n_dev, order in itertools.product((1, 2), (("set", "add"), ("add", "set"), ("set", "add", "add", "set"))):
+        it = ctx.fresh_interp()
+        it.ext_overrides["jax.jit"] = lambda it_, a, k: a[0]
+        it.ext_overrides["typing.cast"] = lambda it_, a, k: a[1]
+        it.ext_overrides["repr"] = lambda it_, a, k: "index"
+        base = vec("F")
+
+        class DevArr2(NdArr):
+            def av_getattr(self, name, _n=n_dev):
+                if name == "devices":
+                    return Builtin("devices", lambda it2, a, k: set(range(_n)))
+                if name == "sharding":
+                    return "sharding"
+                if name == "dtype":
+                    return "dtype"
+                return NdArr.av_getattr(self, name)
+
+        idx = (slice(None), slice(Rat.atom("lo"), Rat.atom("hi")), slice(None), slice(None))
+        for step, op in enumerate(order):
+            arr = DevArr2(base.shape, base.data, base.sp)
+            val = Rat.atom(f"v{step}")
+            try:
+                out = it.call(it.closure_of(f), [arr, idx, val], dict(operation=op))
+            except (Raised, AnalysisError) as e:
+                bad.append((n_dev, order, step, str(e)[:120]))
+                break
+            want = it.call(it.getattr(it.getitem(it.getattr(base, "at"), idx), op), [val], {})
+            if not (isinstance(out, NdArr) and all(to_rat(x).equals(to_rat(y)) for x, y in zip(out.data, want.data))):
+                bad.append((n_dev, order, f"call {step} ({op}) performed another operation"))
+                break
+    ctx.ob("R42.2", f"{SH}._sharding_preserving_indexed_update", not bad, "on one device and on several the result is arr.at[index].set / add(values): the multi-device branch only wraps the same update in a jit with the input's sharding as output sharding; also when set and add follow one another on arrays of one layout and region in one process", bad[:3], "same update in both branches, every call its own operation")
     it = ctx.fresh_interp()
     try:
         it.call(it.closure_of(f), [vec("F"), (slice(None),), vec("V")], dict(operation="multiply"))
